@@ -48,8 +48,8 @@ plan("C08", "exploration",
      {"call-ok:apply": 10}, "at least 10 acknowledged Apply calls",
      {"quick": {"call-ok:apply": 2000, "definite-failure": 50, "porcupine-ok": 30}, "thorough": {"porcupine-ok": 200}})
 plan("C09", "exploration",
-     [sim("verify", 40), sim("lease", 15), sim("churn", 25)],
-     [sim("verify", 400), sim("lease", 130), sim("random", 130), sim("churn", 170)],
+     [sim("verify", 40), sim("lease", 15), sim("churn", 20), sim("promote", 8)],
+     [sim("verify", 400), sim("lease", 130), sim("random", 130), sim("churn", 170), sim("promote", 60)],
      {"verify-ok": 1}, "a VerifyLeader call returned nil",
      {"quick": {"verify-ok": 100, "lease-cut:voters-cut-nonvoters-reachable": 20}, "thorough": {"verify-ok": 750}})
 plan("C10", "fault_enumeration",
@@ -73,8 +73,8 @@ plan("C14", "exploration",
      {"pv-isolation-completed": 1}, "a pre-vote enabled server was isolated and reconnected",
      {"quick": {"pv-isolation-completed": 40, "pv-reconnect-checked": 15}, "thorough": {"pv-isolation-completed": 250}})
 plan("C17", "exploration",
-     [sim("shutdown", 30), sim("random", 10), sim("restore", 20)],
-     [sim("shutdown", 270), sim("random", 100), sim("churn", 100), sim("clients", 70), sim("restore", 100)],
+     [sim("shutdown", 28), sim("random", 8), sim("restore", 16), sim("promote", 8)],
+     [sim("shutdown", 270), sim("random", 100), sim("churn", 100), sim("clients", 70), sim("restore", 100), sim("promote", 80)],
      {"call:apply": 10}, "client futures were observed (and, for the shutdown family, calls raced with and followed Shutdown)",
      {"quick": {"after-shutdown-call": 100}, "thorough": {"after-shutdown-call": 500}})
 plan("C18", "exploration",
